@@ -14,7 +14,7 @@ EffChoices == { <<>>,
                 << <<1, "EXIT_SIGNAL", << <<"post_lifo", "A">>, <<"scribble", "x">> >> >> >> }
 Charts == { [n |-> N, par |-> p, init |-> i, sigs |-> Sigs, react |-> rc, eff |-> ef, cap |-> Cap,
              spy_ring |-> 4, trc_ring |-> 2, live_spy |-> TRUE, live_trace |-> TRUE, host |-> Host,
-             spied |-> TRUE, bad |-> <<>>] :
+             spied |-> TRUE, bad |-> <<>>, build |-> "dyn", reg |-> <<>>] :
             p \in TreesN(N, N), i \in UNION {InitsFor(pp) : pp \in TreesN(N, N)}, rc \in [1..N -> [1..NSigs -> Kinds]], ef \in EffChoices }
 GoodCharts == {c \in Charts : c.init \in InitsFor(c.par)}
 
